@@ -151,6 +151,18 @@ func (s *Session) exec(st Step) (bool, string) {
 			return false, "no-carrier"
 		}
 		c.Fail()
+	case "sendfail":
+		// the next Send of a frame of kind st.Point from the tunnel end st.Dir ("c2s": the tunnel client's, "s2c": the
+		// tunnel server's) fails, the stream stays otherwise healthy
+		c := s.carrier()
+		if c == nil {
+			return false, "no-carrier"
+		}
+		end := "cli"
+		if (st.Dir == "s2c") != (s.Cfg.Dir == "rev") {
+			end = "srv"
+		}
+		c.FailNextSend(end, st.Point)
 	case "srvgone":
 		c := s.carrier()
 		if c == nil {
